@@ -30,10 +30,10 @@ var epoch = time.Date(2026, 3, 1, 0, 0, 0, 0, time.UTC)
 func key(u *url.URL) string { return u.Scheme + "://" + u.Host + "|" + u.Path }
 
 var (
-	userinfos = []string{"", "", "u@", "u:p@", "us%40er:p%3Aw@", "a;b@"}
+	userinfos = []string{"", "", "u@", "u:p@", "us%40er:p%3Aw@", "a;b@", "te%2Fam:x@"}
 	hosts     = []string{"a", "b.example", "a:8080", "[::1]:8080", "10.0.0.1", "c", "d:81"}
-	paths     = []string{"", "", "/", "/p", "/a%2Fb", "/p;x", "/a,b", "/a%20b", "/~u", "/(x)", "/%C3%A9", "/q/r/"}
-	queries   = []string{"", "", "?x=1", "?a=b&c=d", "?q=a|b", "?k=v;w", "?e=%20"}
+	paths     = []string{"", "", "/", "/p", "/a%2Fb", "/p;x", "/a,b", "/a%20b", "/~u", "/(x)", "/%C3%A9", "/q/r/", "/a+b", "/c%3Fd", "/e%23f", "/100%2541", "/x%2B1"}
+	queries   = []string{"", "", "?x=1", "?a=b&c=d", "?q=a|b", "?k=v;w", "?e=%20", "?p=a+b", "?r=%2541"}
 )
 
 func knownExcluded(class string) bool {
